@@ -764,8 +764,15 @@ class Interp:
             fn = frame.body['id']
         key = '%s#%s#%d' % (fn, kind, o)
         site = '%s:%s' % (frame.body['file'], sp if sp is not None else '?')
-        self.inst[(frame.pathid, frame.body['id'], bb)] = Obligation(
-            key, kind, fn, ok, detail, site, frame.path, nstates, nontrivial)
+        ik = (frame.pathid, frame.body['id'], bb)
+        prev = self.inst.get(ik)
+        if prev is not None and not prev.ok:
+            # verdicts of successive visits (unrolled iterations, re-entries) are conjoined
+            prev.n_states += nstates
+            return
+        self.inst[ik] = Obligation(key, kind, fn, ok, detail, site, frame.path,
+                                   nstates + (prev.n_states if prev else 0),
+                                   nontrivial or (prev.nontrivial if prev else False))
 
     def obligations(self):
         """aggregate instances by key"""
@@ -2360,6 +2367,8 @@ class Engine(Interp, InterpOps, CallMixin, ZoneMixin):
         self.stmt_hook = None
         self.call_hook = None
         self.loops_seen = set()
+        self.loop_info = {}
+        self.unroll = 16
         self.layout_hook = None
         self.const_checks = []
         self._last_closure_ret = BOT
@@ -2370,64 +2379,117 @@ class Engine(Interp, InterpOps, CallMixin, ZoneMixin):
 
     # ---- state list management
     def dedupe(self, sts):
+        if len(sts) <= 1:
+            return sts
         out = []
+        buckets = {}
         for s in sts:
-            for o in out:
+            try:
+                h = hash(frozenset(s.cells.items()))
+            except TypeError:
+                h = len(s.cells)
+            bl = buckets.setdefault(h, [])
+            for o in bl:
                 if o is s or o.same(s):
                     break
             else:
+                bl.append(s)
                 out.append(s)
         return out
+
+    def shape_sig(self, s):
+        """cheap signature: path tags + which variants every enum-valued cell may hold"""
+        erf = s.erf
+        sig = []
+        for k, v in s.cells.items():
+            if v[0] == 'E':
+                al = erf.get(v[1]) if v[1] is not None else None
+                if al is None:
+                    sig.append((k, tuple(i for i, _ in v[2])))
+                else:
+                    sig.append((k, tuple(i for i, _ in v[2] if i in al)))
+        return (s.tags, frozenset(sig))
 
     def limit(self, sts, K=None, site=None):
         sts = self.dedupe(sts)
         K = K or self.K
         if len(sts) <= K:
             return sts
-        # repeatedly merge the two closest states (fewest differing cells)
-        sts = list(sts)
-        if len(sts) > 4 * K:
-            # too many to compare pairwise: pre-merge by path tags
-            groups = {}
-            for s in sts:
-                groups.setdefault(s.tags, []).append(s)
-            sts = []
-            for g in groups.values():
-                while len(g) > K:
-                    a = g.pop()
-                    bb = g.pop()
-                    g.append(join_states(a, bb, site))
-                sts.extend(g)
-        while len(sts) > K:
-            best = None
-            n = len(sts)
-            for i in range(n):
-                ci = sts[i].cells
-                for j in range(i + 1, n):
-                    cj = sts[j].cells
-                    d = 0
-                    lim = best[0] if best is not None else 1 << 30
-                    if len(ci) != len(cj):
-                        d += abs(len(ci) - len(cj))
-                    for k, v in ci.items():
-                        w = cj.get(k)
-                        if w is not v and w != v:
-                            d += 1
-                            if d >= lim:
-                                break
-                    if sts[i].tags != sts[j].tags:
-                        d += 3
-                    if best is None or d < best[0]:
-                        best = (d, i, j)
-                        if d <= 1:
-                            break
-                if best is not None and best[0] <= 1:
-                    break
-            _, i, j = best
-            m = join_states(sts[i], sts[j], site)
-            sts = [s for k, s in enumerate(sts) if k != i and k != j] + [m]
+        groups = {}
+        for s in sts:
+            groups.setdefault(self.shape_sig(s), []).append(s)
+        glist = list(groups.values())
+        if len(glist) >= K:
+            merged = []
+            for g in glist:
+                cur = g[0]
+                for s in g[1:]:
+                    cur = join_states(cur, s, site)
+                merged.append(cur)
+            return self.agglomerate(self.dedupe(merged), K, site)
+        # fewer shapes than the budget: every shape keeps at least one state
+        extra = K - len(glist)
+        over = [max(len(g) - 1, 0) for g in glist]
+        tot = sum(over) or 1
+        quotas = [1 + (extra * o) // tot for o in over]
+        out = []
+        for g, q in zip(glist, quotas):
+            out.extend(self.agglomerate(g, q, site))
+        return out
+
+    def agglomerate(self, sts, K, site):
+        """greedy merge of the two closest states (item-set distance) until at most K remain"""
+        import heapq
+        if len(sts) <= K:
+            return sts
+        if len(sts) > 6 * K + 8:
+            # far too many: first fold neighbours in arrival order
+            while len(sts) > 6 * K + 8:
+                nxt_ = []
+                for i in range(0, len(sts) - 1, 2):
+                    nxt_.append(join_states(sts[i], sts[i + 1], site))
+                if len(sts) % 2:
+                    nxt_.append(sts[-1])
+                sts = nxt_
             sts = self.dedupe(sts)
-        return sts
+            if len(sts) <= K:
+                return sts
+
+        def items_of(s):
+            try:
+                return frozenset(s.cells.items())
+            except TypeError:
+                return frozenset((k, repr(v)) for k, v in s.cells.items())
+        live = {i: s for i, s in enumerate(sts)}
+        isets = {i: items_of(s) for i, s in live.items()}
+        heap = []
+        ids = sorted(live)
+        for x in range(len(ids)):
+            ix = isets[ids[x]]
+            for y in range(x + 1, len(ids)):
+                heap.append((len(ix ^ isets[ids[y]]), ids[x], ids[y]))
+        heapq.heapify(heap)
+        nxt = len(sts)
+        while len(live) > K and heap:
+            d, i, j = heapq.heappop(heap)
+            if i not in live or j not in live:
+                continue
+            m = join_states(live[i], live[j], site)
+            del live[i], live[j], isets[i], isets[j]
+            dup = False
+            for s in live.values():
+                if s.same(m):
+                    dup = True
+                    break
+            if dup:
+                continue
+            im = items_of(m)
+            for o, io in isets.items():
+                heapq.heappush(heap, (len(io ^ im), o, nxt))
+            live[nxt] = m
+            isets[nxt] = im
+            nxt += 1
+        return [live[i] for i in sorted(live)]
 
     def prune(self, st, frame, b):
         info = frame.info
@@ -2488,35 +2550,43 @@ class Engine(Interp, InterpOps, CallMixin, ZoneMixin):
 
     # ---- running a body
     def run_body(self, frame, in_states, quiet=False):
+        """Structural execution: the body is a DAG of blocks in which every natural loop is a single
+        node.  Loops are first unrolled (up to self.unroll iterations, every iteration being run
+        with its own states) and, if they have not finished by then, solved by join + widening."""
+        info = frame.info
+        rets = []
+        all_blocks = set(info.rpo)
+        exits = self.run_region(frame, None, all_blocks, 0, list(in_states), quiet, rets)
+        return rets
+
+    def run_region(self, frame, head, blocks, entry, in_states, quiet, rets, back=None):
+        """execute the acyclic region `blocks` (inner loops collapsed) starting at `entry`;
+        returns {outside block: [states]}; states taking the back edge to `head` go to `back`"""
         import heapq
         info = frame.info
-        body = frame.body
-        blocks = body['blocks']
-        edge = {}
-        processed = {}
-        head_state = {}
-        visits = {}
-        loop_entries = {}
-        rets = {}
-        heap = [0]
-        queued = {0}
         rpo = info.rpo
-        heapq.heapify(heap)
-        hq = [(0, 0)]
+        pending = {entry: list(in_states)}
+        hq = [(rpo[entry], entry)]
+        exits = {}
+
+        def route(dst, sts):
+            if not sts:
+                return
+            if head is not None and dst == head:
+                back.extend(sts)
+            elif dst in blocks:
+                if dst not in pending:
+                    pending[dst] = []
+                    heapq.heappush(hq, (rpo[dst], dst))
+                pending[dst].extend(sts)
+            else:
+                exits.setdefault(dst, []).extend(sts)
         while hq:
             _, b = heapq.heappop(hq)
-            queued.discard(b)
-            ins = []
-            if b == 0:
-                ins.extend(in_states)
-            for p in info.pred[b]:
-                e = edge.get((p, b))
-                if e:
-                    ins.extend(e)
+            ins = pending.pop(b, None)
             if not ins:
                 continue
-            multi = len(info.pred[b]) > 1 or b in info.loop_heads
-            if multi:
+            if len(info.pred[b]) > 1 and b != entry:
                 cp = []
                 for s in ins:
                     s = s.copy()
@@ -2524,93 +2594,86 @@ class Engine(Interp, InterpOps, CallMixin, ZoneMixin):
                     self.gc_refinements(s)
                     cp.append(s)
                 ins = self.limit(cp, site=(frame.pathid, b))
-            if b in info.loop_heads:
-                # one fixpoint per entry disjunct: states carry a tag naming the entry they descend from
-                ents = loop_entries.setdefault(b, [])
-                groups = {}
-                for s in ins:
-                    tag = None
-                    for tg in s.tags:
-                        if tg[0] == 'L' and tg[1] == frame.pathid and tg[2] == b:
-                            tag = tg
-                            break
-                    if tag is None:
-                        idx = None
-                        for k, e in enumerate(ents):
-                            if e is s or e.same(s):
-                                idx = k
-                                break
-                        if idx is None:
-                            idx = len(ents)
-                            ents.append(s)
-                        tag = ('L', frame.pathid, b, idx)
-                        s = s.copy()
-                        s.tags = s.tags | {tag}
-                    groups.setdefault(tag, []).append(s)
-                changed = False
-                new_ins = []
-                for tag in sorted(groups, key=lambda x: x[3]):
-                    g = groups[tag]
-                    cur = g[0]
-                    for s in g[1:]:
-                        cur = join_states(cur, s, (frame.pathid, b))
-                    cur = self.strip_loop(cur, frame, b)
-                    old = head_state.get((b, tag))
-                    n = visits.get((b, tag), 0)
-                    if old is not None:
-                        j = join_states(old, cur, (frame.pathid, b))
-                        if n >= 2:
-                            j = self.widen_states(old, j, info.thresholds)
-                        if j.same(old):
-                            new_ins.append(old)
-                            continue
-                        cur = j
-                        if n > 60:
-                            raise AnalysisError('loop does not stabilise in %s bb%d' % (body['name'], b))
-                    head_state[(b, tag)] = cur
-                    visits[(b, tag)] = n + 1
-                    changed = True
-                    new_ins.append(cur)
-                # groups seen earlier but not arriving now keep their head state
-                for (hb, tag), hs in head_state.items():
-                    if hb == b and tag not in groups:
-                        new_ins.append(hs)
-                if not changed:
-                    continue
-                ins = new_ins
-            else:
-                old = processed.get(b)
-                if old is not None and len(old) == len(ins) and all(x is y or x.same(y) for x, y in zip(old, ins)):
-                    continue
-                processed[b] = ins
-            if info.loop_heads and b not in info.in_loop:
-                for k, s_ in enumerate(ins):
-                    if s_.tags and any(tg[0] == 'L' and tg[1] == frame.pathid for tg in s_.tags):
-                        s2_ = s_.copy()
-                        s2_.tags = frozenset(tg for tg in s_.tags if not (tg[0] == 'L' and tg[1] == frame.pathid))
-                        ins[k] = s2_
+            if b in info.loop_heads and b != head:
+                for dst, sts in self.run_loop(frame, b, ins, quiet, rets).items():
+                    route(dst, sts)
+                continue
             self.n_blocks += 1
             if self.budget is not None and self.n_blocks > self.budget:
                 raise AnalysisError('block budget exceeded')
             outs, ret = self.exec_block(frame, b, ins, quiet)
             if ret is not None:
-                rets[b] = ret
+                rets.extend(ret)
             for dst, sts in outs.items():
-                edge[(b, dst)] = sts
-            for dst in info.succ[b]:
-                if dst not in outs:
-                    edge.pop((b, dst), None)
-                if dst not in queued and dst in rpo:
-                    queued.add(dst)
-                    heapq.heappush(hq, (rpo[dst], dst))
-        out = []
-        for b in sorted(rets):
-            out.extend(rets[b])
-        # loop classification for termination obligations
-        if not quiet:
-            for h in info.loop_heads:
-                self.loops_seen.add((body['name'], h, frame.pathid))
-        return out
+                route(dst, sts)
+        return exits
+
+    def run_loop(self, frame, h, in_states, quiet, rets):
+        info = frame.info
+        blocks = info.loop_blocks[h]
+        exits = {}
+        key = (frame.body['name'], h)
+
+        def add_exits(ex):
+            for dst, sts in ex.items():
+                exits.setdefault(dst, []).extend(sts)
+
+        def prep(sts):
+            out = []
+            for s in sts:
+                s = s.copy()
+                self.prune(s, frame, h)
+                s = self.strip_loop(s, frame, h)
+                self.gc_refinements(s)
+                out.append(s)
+            return self.limit(out, site=(frame.pathid, h))
+        cur = prep(in_states)
+        seen = list(cur)
+        it = 0
+        while it < self.unroll:
+            back = []
+            add_exits(self.run_region(frame, h, blocks, h, cur, quiet, rets, back))
+            it += 1
+            if not back:
+                self.loop_info.setdefault(key, set()).add(('exact', it))
+                for dst in exits:
+                    exits[dst] = self.dedupe(exits[dst])
+                return exits
+            cur = prep(back)
+            # an iteration that reproduces a state already run adds nothing
+            cur = [s for s in cur if not any(s.same(o) for o in seen)]
+            if not cur:
+                self.loop_info.setdefault(key, set()).add(('fixpoint', it))
+                return exits
+            seen.extend(cur)
+        # not finished: one joined head state, widening
+        self.loop_info.setdefault(key, set()).add(('widened', it))
+        head_st = seen[0]
+        for s in seen[1:]:
+            head_st = join_states(head_st, s, (frame.pathid, h))
+        n = 0
+        last_ex = {}
+        while True:
+            back = []
+            last_ex = self.run_region(frame, h, blocks, h, [head_st], quiet, rets, back)
+            if not back:
+                break
+            nb = prep(back)
+            new = head_st
+            for s in nb:
+                new = join_states(new, s, (frame.pathid, h))
+            if n >= 2:
+                new = self.widen_states(head_st, new, info.thresholds if n < 5 else ())
+            if new.same(head_st):
+                break
+            head_st = new
+            n += 1
+            if n > 40:
+                raise AnalysisError('loop does not stabilise in %s bb%d' % (frame.body['name'], h))
+        add_exits(last_ex)
+        for dst in exits:
+            exits[dst] = self.dedupe(exits[dst])
+        return exits
 
     def strip_loop(self, st, frame, head):
         blk = frame.info.loop_blocks.get(head, ())
